@@ -350,7 +350,7 @@ def composite_children(comp: CircuitCompositeOperation) -> list:
 def _same_kind(a, b) -> bool:
     if type(a) is not type(b):
         return False
-    for attr in ('qubit_index', 'control_qubit_index', 'target_qubit_index', 'qubit_indices', 'acquisition_tag'):
+    for attr in ('qubit_index', 'control_qubit_index', 'target_qubit_index', 'qubit_indices', 'acquisition_tag', 'qubit_channel'):
         if hasattr(a, attr) and getattr(a, attr) != getattr(b, attr):
             return False
     sa, sb = getattr(a, 'duration_strategy', None), getattr(b, 'duration_strategy', None)
@@ -361,6 +361,17 @@ def _same_kind(a, b) -> bool:
         if sa is not sb:
             return False
     return True
+
+
+def _same_shape(a, b) -> bool:
+    """Recursive structural comparison of a block with its copy (children in the library's iteration order)."""
+    ca, cb = isinstance(a, CircuitCompositeOperation), isinstance(b, CircuitCompositeOperation)
+    if ca != cb:
+        return False
+    if not ca:
+        return _same_kind(a, b)
+    ka, kb = composite_children(a), composite_children(b)
+    return len(ka) == len(kb) and all(_same_shape(x, y) for x, y in zip(ka, kb))
 
 
 class HarnessMappingError(Exception):
@@ -379,14 +390,17 @@ def remap_children(node: Node, copied: CircuitCompositeOperation, ctx=None, lost
             if j in used:
                 continue
             if child.is_sub:
-                if isinstance(c, CircuitCompositeOperation) and isinstance(child.obj, CircuitCompositeOperation) \
-                        and len(composite_children(c)) == len(composite_children(child.obj)) \
-                        and all(_same_kind(x, y) for x, y in zip(composite_children(c), composite_children(child.obj))):
+                if isinstance(c, CircuitCompositeOperation) and isinstance(child.obj, CircuitCompositeOperation) and _same_shape(c, child.obj):
                     found = j
                     break
             elif _same_kind(child.obj, c):
-                found = j
-                break
+                # prefer the candidate that shares the duration-strategy object (copies keep it): equal concrete durations of two
+                # different steps must not be confused
+                if found is None:
+                    found = j
+                if getattr(child.obj, 'duration_strategy', None) is not None and getattr(child.obj, 'duration_strategy', None) is getattr(c, 'duration_strategy', None):
+                    found = j
+                    break
         if found is None:
             if ctx is not None and lost_label:
                 ctx.check(lost_label, False, {'step': child.label(), 'kind': child.kind if not child.is_sub else 'S', 'copied_children': [type(c).__name__ for c in copies],
